@@ -16,6 +16,7 @@ import shutil
 import subprocess
 import sys
 import tempfile
+import threading
 from concurrent.futures import ThreadPoolExecutor
 
 HERE = os.path.dirname(os.path.abspath(__file__))
@@ -25,25 +26,56 @@ SCRATCH = os.environ.get("VERIF_SCRATCH", "/var/tmp")
 
 
 _REPO_KEY = []
+_IN_USE = {}
+_IN_USE_LOCK = threading.Lock()
 
 
-def _drop_cache(d):
-    """the facts extracted from a scratch copy are of no use once its check has run: remove them straight away
-    (never the cache of REPO itself) so that a whole self-test needs the room of `jobs` caches, not of one per entry"""
+def _tree_key(d):
+    if VERIF not in sys.path:
+        sys.path.insert(0, VERIF)
+    from crabcheck import facts
+    return facts._sha_tree(d)[0]
+
+
+def _claim_cache(d):
+    """two entries with the same edit (a seed caught by two properties) share one cache: count the users"""
     try:
-        sys.path.insert(0, VERIF) if VERIF not in sys.path else None
+        key = _tree_key(d)
+    except Exception:
+        return None
+    with _IN_USE_LOCK:
+        _IN_USE[key] = _IN_USE.get(key, 0) + 1
+    return key
+
+
+def _drop_cache(key):
+    """the facts extracted from a scratch copy are of no use once its check has run: remove them straight away
+    (never the cache of REPO itself, never one another entry of this run still reads, never one that a different
+    process has re-used since it was written) so that a self-test needs the room of `jobs` caches, not one per entry"""
+    if key is None:
+        return
+    try:
         from crabcheck import facts
-        if not _REPO_KEY:
-            _REPO_KEY.append(facts._sha_tree(REPO)[0])
-        key = facts._sha_tree(d)[0]
-        if key != _REPO_KEY[0]:
-            shutil.rmtree(os.path.join(facts.CACHE_ROOT, key), ignore_errors=True)
+        with _IN_USE_LOCK:
+            _IN_USE[key] -= 1
+            if _IN_USE[key] > 0:
+                return
+            if not _REPO_KEY:
+                _REPO_KEY.append(_tree_key(REPO))
+            if key == _REPO_KEY[0]:
+                return
+            cdir = os.path.join(facts.CACHE_ROOT, key)
+            idx = os.path.join(cdir, "index.json")
+            if os.path.exists(idx) and os.path.getmtime(cdir) - os.path.getmtime(idx) > 1.0:
+                return          # re-used (ensure_facts touches the directory) by somebody else: leave it to the pruning
+            shutil.rmtree(cdir, ignore_errors=True)
     except Exception:
         pass
 
 
 def run_one(m):
     d = tempfile.mkdtemp(prefix="verif-selftest-", dir=SCRATCH)
+    key = None
     try:
         for sub in ("include", "lib"):
             shutil.copytree(os.path.join(REPO, sub), os.path.join(d, sub))
@@ -67,6 +99,7 @@ def run_one(m):
             s = s.replace(e["old"], e["new"])
             with open(p, "w") as fh:
                 fh.write(s)
+        key = _claim_cache(d)
         env = dict(os.environ)
         env["CRAB_REPO"] = d
         env["VERIF_EVIDENCE_DIR"] = os.path.join(d, "evidence")
@@ -83,7 +116,7 @@ def run_one(m):
             ok = p.returncode == 2
         return m, "OK" if ok else "FAIL", "exit %d\n%s" % (p.returncode, "\n".join(out.splitlines()[-12:]))
     finally:
-        _drop_cache(d)
+        _drop_cache(key)
         shutil.rmtree(d, ignore_errors=True)
 
 
